@@ -135,7 +135,6 @@ package identity
 //@ func MergeAll$1
 //@   props C02 C09
 //@   requires repo != nil
-//@   check [invalid-does-not-stop] (forall k int :: { sentat(out, k) } 0 <= k && k < sentcount(out) ==> sentat(out, k).Status != entity.MergeStatusError && sentat(out, k).Err == nil) ==> sentcount(out) == len(remoteRefs)
+//@   check [invalid-does-not-stop] sentcount(out) == len(remoteRefs) || (sentcount(out) > 0 && (sentat(out, sentcount(out) - 1).Status == entity.MergeStatusError || sentat(out, sentcount(out) - 1).Err != nil))
 //@   loop 1
 //@     invariant sentcount(out) == rangeindex + 1
-//@     invariant forall k int :: { sentat(out, k) } 0 <= k && k < sentcount(out) ==> sentat(out, k).Status != entity.MergeStatusError && sentat(out, k).Err == nil
